@@ -264,8 +264,37 @@ fn scenario(w: &mut World, ctx: &RunCtx, states: &mut Vec<u64>) -> Result<(), Vi
                     w.inject(osrc, odst, vec![0u8; 40], 1, "unsealed-payload");
                     w.count("c01_unsealed_payload_injected");
                 }
-                let kind = w.ch.weighted("forgery", &[3, 3, 2, 2, 2]);
+                let kind = w.ch.weighted("forgery", &[3, 3, 2, 2, 2, 1]);
                 let (data, tag): (Vec<u8>, &'static str) = match kind {
+                    5 => {
+                        // "signed" by nobody: a key hash that matches no key and one of the signatures that verify
+                        // under degenerate (small-order) public keys for a quarter of all messages - R the neutral
+                        // element or another point of small order, S = 0; the free salt gives as many tries as wanted
+                        let mut v = (*d).clone();
+                        if let Some(l) = super::refmodel::handshake_layout(&v) {
+                            if v.len() >= l.sig_at + 64 {
+                                let salt = body_rng.bytes(8);
+                                v[1..9].copy_from_slice(&salt);
+                                v[l.siglen_at] = 64;
+                                for b in &mut v[l.sig_at..l.sig_at + 64] {
+                                    *b = 0;
+                                }
+                                match w.ch.choose("small_order_r", 3) {
+                                    0 => v[l.sig_at] = 1,
+                                    1 => {}
+                                    _ => {
+                                        v[l.sig_at] = 0xec;
+                                        for b in &mut v[l.sig_at + 1..l.sig_at + 31] {
+                                            *b = 0xff;
+                                        }
+                                        v[l.sig_at + 31] = 0x7f;
+                                    }
+                                }
+                            }
+                        }
+                        w.count("c01_keyless_signatures_injected");
+                        (v, "keyless-signature")
+                    }
                     0 => {
                         let sel = w.ch.choose("edit_field", 16);
                         c09::edit(&mut body_rng, &d, sel)
